@@ -38,6 +38,8 @@ PARAM_NAMES = ['g', 'h', 'i', 'k', 'm', 'n', 'p', 'r', 's', 't', 'u', 'v', 'w', 
 ALT_DELIMS = '/|!@%^*_+=~:.?'
 ALT_SEPS = '/|!@%^*_+=~:.? '
 
+from html import escape as html_escape
+
 class Tok:
     '''Rendered text + the characters that must not follow it (they would be read as part of its parameters).
     subst: the text is (or starts with) a placeholder that is replaced by a number or word before the macro to
@@ -473,8 +475,12 @@ class Renderer:
             self.rng.shuffle(nat)
             cands = nat + cands
         name = None
+        escaped = html_escape(everything)
         for c in cands:
-            if c in everything:
+            if c in everything or c in escaped:
+                # also not inside the entity a separator character becomes in HTML mode ('m' in '&amp;'): #FOR with
+                # flag 4 replaces the name in the separator, which in HTML mode is still in escaped form (the listed
+                # separator-escaping mechanism would then show as a mangled entity instead of a doubled one)
                 continue
             if any(c in u or u in c for u in self.used_loopvars):
                 continue
